@@ -8,6 +8,7 @@
 mod alloc_count;
 mod props_a;
 mod props_b;
+mod props_c;
 mod real;
 mod run;
 mod value;
@@ -239,6 +240,11 @@ fn main() {
         "replay-c11" => props_b::replay_c11(&a.rest),
         "replay-c17" => props_b::replay_c17(&a.rest),
         "replay-c18" => props_b::replay_c18(&a.rest),
+        "replay-c12" => props_c::replay_c12(&a.rest),
+        "replay-c13" => props_c::replay_c13(&a.rest),
+        "c12" => props_c::c12(&a),
+        "c13" => props_c::c13(&a),
+        "c14" => props_c::c14(&a),
         "c11" => props_b::c11(&a),
         "c17" => props_b::c17(&a),
         "c18" => props_b::c18(&a),
